@@ -168,7 +168,8 @@ theorem wp_computeNext_calls (m : MEC) (w : World) :
 
 /-! ## freshness of the SAT replies: not inside any blocked set -/
 
-theorem wp_increase_fresh {C : Prop} {m : MEC} {w : World} {blocked : List (List Nat)} (h : MInv m w blocked)
+theorem wp_increase_freshF {F : AF → ASet → Prop} {C : Prop} {m : MEC} {w : World} {blocked : List (List Nat)}
+    (h : MInvF F m w blocked)
     (hk : m.kind = .preferred) (hst : m.state = .intermediate) :
     wp C m.computeNext w (fun m' _ =>
       (m'.state = .intermediate → ∀ E ∈ m.cur :: blocked, ¬ SubL (ofList m'.cur) E) ∧
@@ -180,11 +181,18 @@ theorem wp_increase_fresh {C : Prop} {m : MEC} {w : World} {blocked : List (List
   have hM := h.block m.cur
   have happ : inL m.enc m.af.n m.cur ++ [nl m.sel] = inL m.enc m.af.n m.cur ++ [nl m.sel] ++ [] := by simp
   rw [happ]
-  apply wp_MEC_solve hM m.cur []
+  apply wp_MEC_solveF hM m.cur []
   · intro mdl w' _ _ _ _ hblk _
     exact ⟨fun _ => hblk, fun hmax => (by cases hmax)⟩
   · intro w' _ _ _
     exact ⟨fun hmax => (by cases hmax), fun _ => rfl⟩
+
+theorem wp_increase_fresh {C : Prop} {m : MEC} {w : World} {blocked : List (List Nat)} (h : MInv m w blocked)
+    (hk : m.kind = .preferred) (hst : m.state = .intermediate) :
+    wp C m.computeNext w (fun m' _ =>
+      (m'.state = .intermediate → ∀ E ∈ m.cur :: blocked, ¬ SubL (ofList m'.cur) E) ∧
+      (m'.state = .maximal → m'.cur = m.cur)) :=
+  wp_increase_freshF h hk hst
 
 theorem wp_newSearch_fresh {C : Prop} {m : MEC} {w : World} {blocked : List (List Nat)} (h : MInv m w blocked) :
     wp C m.newSearch w (fun m' _ =>
@@ -211,12 +219,13 @@ theorem outside_le (n : Nat) (S : ASet) : outside n S ≤ n := by
   exact Nat.le_trans (List.length_filter_le _ _) (by simp)
 
 /-- one increase step: at most one call and the measure decreases -/
-theorem wp_increase_measure {m : MEC} {w : World} {blocked : List (List Nat)} (h : GrowInv m w blocked)
+theorem wp_increase_measureF {F : AF → ASet → Prop} (hF : PrefFam F) {m : MEC} {w : World}
+    {blocked : List (List Nat)} (h : GrowInvF F m w blocked)
     (hst : m.state = .intermediate) :
-    wp False m.computeNext w (fun m' w' => (∃ blocked', GrowInv m' w' blocked') ∧
+    wp False m.computeNext w (fun m' w' => (∃ blocked', GrowInvF F m' w' blocked') ∧
       growMeasure m' + 1 ≤ growMeasure m ∧ w'.calls ≤ w.calls + 1) := by
-  have h1 := wp_andT _ _ _ _ (wp_andT _ _ _ _ (wp_increase (C := False) h hst)
-    (wp_increase_fresh (C := True) h.minv h.kind hst)) (wp_computeNext_calls m w)
+  have h1 := wp_andT _ _ _ _ (wp_andT _ _ _ _ (wp_increaseF hF (C := False) h hst)
+    (wp_increase_freshF (C := True) h.minv h.kind hst)) (wp_computeNext_calls m w)
   refine wp_mono _ _ _ _ ?_ h1
   rintro m' w' ⟨⟨⟨blocked', hG, haf, _, _, _, hsub, _⟩, hfresh⟩, hcalls, _⟩
   refine ⟨⟨blocked', hG⟩, ?_, hcalls⟩
@@ -246,10 +255,17 @@ theorem wp_increase_measure {m : MEC} {w : World} {blocked : List (List Nat)} (h
     rw [haf]
     omega
 
+theorem wp_increase_measure {m : MEC} {w : World} {blocked : List (List Nat)} (h : GrowInv m w blocked)
+    (hst : m.state = .intermediate) :
+    wp False m.computeNext w (fun m' w' => (∃ blocked', GrowInv m' w' blocked') ∧
+      growMeasure m' + 1 ≤ growMeasure m ∧ w'.calls ≤ w.calls + 1) :=
+  wp_increase_measureF prefFam_complete h hst
+
 /-- **`compute_maximal` terminates**: from a growing state, with fuel above the measure, no crash and
 at most `measure` calls -/
-theorem computeMaximal_calls : ∀ (fuel : Nat) (m : MEC) (w : World) (blocked : List (List Nat)),
-    GrowInv m w blocked → fuel ≥ growMeasure m + 1 →
+theorem computeMaximal_callsF {F : AF → ASet → Prop} (hF : PrefFam F) :
+    ∀ (fuel : Nat) (m : MEC) (w : World) (blocked : List (List Nat)),
+    GrowInvF F m w blocked → fuel ≥ growMeasure m + 1 →
     wp False (MEC.computeMaximal fuel m) w (fun _ w' => w'.calls ≤ w.calls + growMeasure m)
   | 0, _, _, _, _, hf => by omega
   | fuel + 1, m, w, blocked, h, hf => by
@@ -263,15 +279,21 @@ theorem computeMaximal_calls : ∀ (fuel : Nat) (m : MEC) (w : World) (blocked :
       have hne : (m.state == MState.maximal) = false := by rw [hst]; rfl
       simp only [hne, Bool.false_eq_true, if_false, Prog.bind_eq]
       rw [wp_bind]
-      refine wp_mono _ _ _ _ ?_ (wp_increase_measure h hst)
+      refine wp_mono _ _ _ _ ?_ (wp_increase_measureF hF h hst)
       rintro m' w' ⟨⟨blocked', hG⟩, hμ, hcalls⟩
-      refine wp_mono _ _ _ _ ?_ (computeMaximal_calls fuel m' w' blocked' hG (by omega))
+      refine wp_mono _ _ _ _ ?_ (computeMaximal_callsF hF fuel m' w' blocked' hG (by omega))
       intro _ w'' hw''
       have : w''.calls ≤ w'.calls + growMeasure m' := hw''
       omega
 
+theorem computeMaximal_calls : ∀ (fuel : Nat) (m : MEC) (w : World) (blocked : List (List Nat)),
+    GrowInv m w blocked → fuel ≥ growMeasure m + 1 →
+    wp False (MEC.computeMaximal fuel m) w (fun _ w' => w'.calls ≤ w.calls + growMeasure m) :=
+  computeMaximal_callsF prefFam_complete
+
 /-- from the initial state: one more iteration, no more calls -/
-theorem computeMaximal_init_calls (fuel : Nat) (m : MEC) (w : World) (h : MInv m w []) (hk : m.kind = .preferred)
+theorem computeMaximal_init_callsF {F : AF → ASet → Prop} (hF : PrefFam F) (fuel : Nat) (m : MEC) (w : World)
+    (h : MInvF F m w []) (hk : m.kind = .preferred)
     (hst : m.state = .init) (hgr : GrOK m.af) (hf : fuel ≥ m.af.n + 3) :
     wp False (MEC.computeMaximal fuel m) w (fun _ w' => w'.calls ≤ w.calls + m.af.n + 1) := by
   cases fuel with
@@ -284,21 +306,27 @@ theorem computeMaximal_init_calls (fuel : Nat) (m : MEC) (w : World) (h : MInv m
     unfold MEC.computeNext
     rw [hst]
     show wp False (MEC.computeMaximal fuel { m with cur := groundedV m.af.view, state := .intermediate }) w _
-    have hG := GrowInv_init h hk hgr
+    have hG := GrowInvF_init hF h hk hgr
     have hμ : growMeasure { m with cur := groundedV m.af.view, state := .intermediate } ≤ m.af.n + 1 := by
       unfold growMeasure
       rw [if_neg (by intro hh; cases hh)]
       have := outside_le m.af.n (ofList (groundedV m.af.view))
       simp only
       omega
-    refine wp_mono _ _ _ _ ?_ (computeMaximal_calls fuel _ w [] hG (by omega))
+    refine wp_mono _ _ _ _ ?_ (computeMaximal_callsF hF fuel _ w [] hG (by omega))
     intro _ w' hw'
     have : w'.calls ≤ w.calls + growMeasure { m with cur := groundedV m.af.view, state := .intermediate } := hw'
     omega
 
+theorem computeMaximal_init_calls (fuel : Nat) (m : MEC) (w : World) (h : MInv m w []) (hk : m.kind = .preferred)
+    (hst : m.state = .init) (hgr : GrOK m.af) (hf : fuel ≥ m.af.n + 3) :
+    wp False (MEC.computeMaximal fuel m) w (fun _ w' => w'.calls ≤ w.calls + m.af.n + 1) :=
+  computeMaximal_init_callsF prefFam_complete fuel m w h hk hst hgr hf
+
 /-- **SE-PR on one component terminates** (fuel `n + 3`: one iteration for the initial state, at most
 `n + 1` increase steps, one iteration to notice the maximal state) **within `n + 1` SAT calls** -/
-theorem prMaximalOfComp_calls (cfg : Cfg) (hk : ∀ af T, cfg.enc.Base af T ↔ Complete af T) (c : Comp)
+theorem prMaximalOfComp_callsF {F : AF → ASet → Prop} (hF : PrefFam F) (cfg : Cfg)
+    (hk : ∀ af T, cfg.enc.Base af T ↔ F af T) (c : Comp)
     (hwf : c.af.WF) (hgr : GrOK c.af) (w : World) (hb : w.Bounded) (hfuel : cfg.fuel ≥ c.af.n + 3) :
     wp False (prMaximalOfComp cfg c) w (fun _ w' => w'.calls ≤ w.calls + c.af.n + 1) := by
   unfold prMaximalOfComp
@@ -311,11 +339,11 @@ theorem prMaximalOfComp_calls (cfg : Cfg) (hk : ∀ af T, cfg.enc.Base af T ↔ 
     (wp_encodeInto_calls cfg.enc c.af w.solvers.length false w.onNew))
   rintro _ w1 ⟨henc, hc1⟩
   rw [wp_bind]
-  refine wp_mono _ _ _ _ ?_ (wp_andT _ _ _ _ (wp_MEC_new (C := False) henc hwf (hk _) .preferred)
+  refine wp_mono _ _ _ _ ?_ (wp_andT _ _ _ _ (wp_MEC_newF (C := False) henc hwf (hk _) .preferred)
     (wp_MEC_new_calls c.af cfg.enc w.solvers.length .preferred w1))
   rintro m w2 ⟨⟨hM, haf, _, _, hkind, hst, _, _⟩, hc2⟩
   rw [wp_bind]
-  refine wp_mono _ _ _ _ ?_ (computeMaximal_init_calls cfg.fuel m w2 hM hkind hst (by rw [haf]; exact hgr)
+  refine wp_mono _ _ _ _ ?_ (computeMaximal_init_callsF hF cfg.fuel m w2 hM hkind hst (by rw [haf]; exact hgr)
     (by rw [haf]; exact hfuel))
   intro e w3 hw3
   rw [haf] at hw3
@@ -325,6 +353,11 @@ theorem prMaximalOfComp_calls (cfg : Cfg) (hk : ∀ af T, cfg.enc.Base af T ↔ 
   show w3.calls ≤ w.calls + c.af.n + 1
   simp only [World.onNew_calls] at h1
   omega
+
+theorem prMaximalOfComp_calls (cfg : Cfg) (hk : ∀ af T, cfg.enc.Base af T ↔ Complete af T) (c : Comp)
+    (hwf : c.af.WF) (hgr : GrOK c.af) (w : World) (hb : w.Bounded) (hfuel : cfg.fuel ≥ c.af.n + 3) :
+    wp False (prMaximalOfComp cfg c) w (fun _ w' => w'.calls ≤ w.calls + c.af.n + 1) :=
+  prMaximalOfComp_callsF prefFam_complete cfg hk c hwf hgr w hb hfuel
 
 /-! ## DS-PR: the skeptical search -/
 
